@@ -28,7 +28,8 @@ ASSUMPTIONS = [
 SHARDS = {"quick": 4, "thorough": 16}
 MIN_REACH = {
     "calls_logged": {"quick": 2000, "thorough": 60000},
-    "missing_slots_checked": {"quick": 1500, "thorough": 50000},
+    "missing_slots_checked": {"quick": 1200, "thorough": 40000},
+    "unsortable_axes_judged": {"quick": 15, "thorough": 300},
     "rejections_checked": {"quick": 10, "thorough": 100},
 }
 TIME_BUDGET = {"quick": 300, "thorough": 3000}
@@ -41,7 +42,7 @@ SPLIT_KINDS = ["tuple:2", "tuple:3", "multi:s,b,t", "multi:s,a2,l2x2", "mixed"]
 def cases(ctx):
     rng = ctx.rng("cases")
     for i in range(ctx.pick(640, 12000)):
-        names, cs = gens.gen_cases(rng, exotic=True)
+        names, cs = gens.gen_cases(rng, exotic=True, unsortable=0.1)
         sub = []
         if rng.random() < 0.45:
             free = [a for a in gens.ARG_POOL if a not in names]
@@ -54,7 +55,7 @@ def cases(ctx):
         c = {
             "entry": entry, "names": names, "cases": cs, "sub": sub, "kind": kind,
             "split": split, "flat": flat, "spelling": spelling,
-            "shuffle": rng.choice([False, False, True, rng.randint(2, 999)]),
+            "shuffle": gens.gen_shuffle(rng),
             "constants": gens.gen_constants(rng, 2, exclude=names + [a for a, _ in sub]),
             "keyorder_seed": rng.randint(0, 10 ** 6),
             "single_dict": len(cs) == 1 and rng.random() < 0.5,
@@ -155,7 +156,26 @@ def run_case(ctx, case):
         f = leaf if sel is None else (lambda p: leaf(p)[sel])
         if case["flat"]:
             return refmodel.deep_eq(res, tuple(f(p) for p in requested))
-        axes = [(a, refmodel.sorted_union(c[a] for c in cs)) for a in names] + sub
+        # an argument whose union of values cannot be sorted has no specified axis order: every order is tried and
+        # the nest must be consistent with at least one (the values are injective, so no wrong placement fits any)
+        import itertools
+        cands = []
+        for a in names:
+            try:
+                cands.append([refmodel.sorted_union(c[a] for c in cs)])
+            except TypeError:
+                u = refmodel.plain_union(c[a] for c in cs)
+                cands.append([list(p) for p in itertools.permutations(u)])
+                ctx.count("unsortable_axes_judged")
+        first = None
+        for orders in itertools.product(*cands):
+            d = judge_axes(res, f, [(a, o) for a, o in zip(names, orders)] + sub, count=first is None)
+            if d is None:
+                return None
+            first = first or d
+        return first
+
+    def judge_axes(res, f, axes, count=True):
         wanted = {tuple(probe._cv(c[a]) for a in names) for c in cs}
         real = f(requested[0])
         bad = []
@@ -192,7 +212,8 @@ def run_case(ctx, case):
                 [(a, len(v)) for a, v in axes],)
         for p in refmodel.grid_points(axes):
             slot(p)
-        ctx.count("missing_slots_checked", nmiss)
+        if count:
+            ctx.count("missing_slots_checked", nmiss)
         return bad[0] if bad else None
 
     if case["split"]:
@@ -210,7 +231,7 @@ def run_case(ctx, case):
         if d:
             ctx.violation(case, d, dict(sig0, oracle="placement"))
 
-    unions = [len(refmodel.sorted_union(c[a] for c in cs)) for a in names]
+    unions = [len(refmodel.plain_union(c[a] for c in cs)) for a in names]
     total = 1
     for u in unions:
         total *= u
